@@ -140,27 +140,57 @@ class GBody:
         del self.log[:]
         return out
 
-    def dispose(self, agens=()):
+    def dispose(self, agens=(), pending=None):
+        """finish everything silently; what cannot be finished (bodies that keep ignoring
+        GeneratorExit) is parked in _LEAKED so that no finaliser runs before the process ends"""
         self.ns["L"] = []
-        for ag in agens:                   # finish native generators silently
+        stuck = False
+        if pending is not None and agens:
+            for _ in range(50):            # end the suspended native awaitable
+                try:
+                    pending.throw(_Kill())
+                except BaseException:
+                    break
+        for ag in agens:                   # finish native generators
             for _ in range(50):
+                if ag.ag_frame is None:
+                    break
                 try:
                     a = ag.aclose()
-                    while True:
+                    for _ in range(50):
                         a.send(None)
-                except StopIteration:
-                    break
-                except BaseException:
-                    if ag.ag_frame is None:
-                        break
-        for c in reversed(self.kept):
-            for _ in range(50):
-                try:
-                    c.close()
-                    break
                 except BaseException:
                     pass
+            stuck = stuck or ag.ag_frame is not None
+        if not stuck:
+            for c in reversed(self.kept):
+                for _ in range(50):
+                    try:
+                        c.close()
+                        break
+                    except BaseException:
+                        pass
+                else:
+                    stuck = True
+        if stuck:
+            _LEAKED.append((list(agens), pending, list(self.kept)))
         del self.kept[:]
+
+
+class _Kill(BaseException):
+    pass
+
+
+_LEAKED: list = []
+
+
+def _mute_at_exit():
+    import sys
+    sys.unraisablehook = lambda *a: None
+
+
+import atexit  # noqa: E402
+atexit.register(_mute_at_exit)
 
 
 # ----------------------------------------------------------------------------
@@ -236,8 +266,8 @@ class Runner:
         return st
 
     def close(self):
-        self.pending = None
-        self.body.dispose([self.ag] if self.mode == "native" else [])
+        pending, self.pending = self.pending, None
+        self.body.dispose([self.ag] if self.mode == "native" else [], pending)
 
 
 def run_history(p, hist, mode):
@@ -553,8 +583,10 @@ def random_history(rng, p, n, wild=False):
 def gen_cases(rng, tier, stream):
     quick = tier == "quick"
     off = 0 if stream == "native" else 1
-    # 1. bounded-exhaustive: every body of <= 3 nodes (thorough: 4) x every steered history of 3 ops
-    #    (quick: bodies of 3 nodes with every history of 2 ops and every 8th history of 3 ops)
+    # 1. bounded-exhaustive: every body of <= 3 nodes x every steered history of 3 ops (quick: bodies
+    #    of 3 nodes with every history of 2 ops and every 8th history of 3 ops); thorough also every
+    #    body of 4 nodes with a yield or an await x every 2nd history of 3 ops, and bodies of <= 2
+    #    nodes x every history of 4 ops
     k = 0
     for n in range(1, 4 if quick else 5):
         for p in enum_bodies(n):
@@ -563,24 +595,27 @@ def gen_cases(rng, tier, stream):
             if quick and n == 3:
                 for h in enum_histories(p, 2):
                     yield {"prog": p, "hist": h}
-            for h in enum_histories(p, 3 if (quick or n >= 4) else 4):
+            for h in enum_histories(p, 4 if (n <= 2 and not quick) else 3):
                 k += 1
                 if quick and n == 3 and (k + off) % 8:
                     continue
+                if n == 4 and (k + off) % 2:
+                    continue
                 yield {"prog": p, "hist": h}
-    # 2. seed bodies x every steered history of 3 operations, and of 4 (quick: every 8th) / 5
+    # 2. seed bodies x every steered history of 3 operations, and every 8th of 4 (thorough: all of 4,
+    #    every 8th of 5)
     for p in SEEDS:
         p = renumber(p)
-        for h in enum_histories(p, 3):
+        for h in enum_histories(p, 3 if quick else 4):
             yield {"prog": p, "hist": h}
         for h in enum_histories(p, 4 if quick else 5):
             k += 1
-            if quick and (k + off) % 8:
+            if (k + off) % 8:
                 continue
             yield {"prog": p, "hist": h}
     # 3. random bodies and histories; every 6th with out-of-domain throws (model vs code only
     #    from the first such operation on), every 15th body raising OOBData (genobj: model only)
-    for i in range(1500 if quick else 40000):
+    for i in range(1500 if quick else 20000):
         p = renumber(random_gprog(rng, rng.choice([3, 5, 7, 9, 12]), in_handler=(i % 7 == 1),
                                   oob=(stream == "genobj" and i % 15 == 0)))
         h = random_history(rng, p, rng.choice([3, 4, 6, 8]), wild=(i % 6 == 0))
@@ -644,7 +679,7 @@ PROP = Prop(
     props_v="theories/Props/C06.v",
     theory_files=["theories/Coro/Tree.v", "theories/Coro/Native.v", "theories/Coro/TreeProofs.v",
                   "theories/Coro/AsyncGen.v", "theories/Coro/GenObj.v", "theories/Coro/GenObjSim.v",
-                  "theories/Coro/GenObjProofs.v",
+                  "theories/Coro/GenObjProofs.v", "theories/Coro/GenObjNested.v",
                   "theories/Coro/GenObjCorr.v"],
     streams=[
         Stream(name="native", imports=IMPORTS, run="GenObjCorr.native_run", input_type="gprog * list hop",
@@ -657,10 +692,12 @@ PROP = Prop(
                corr_name="asynkit GeneratorObjectIterator / Monitor (GenObj.v)"),
     ],
     rule="bodies: every gprog with <= 3 nodes (thorough: 4) over {log, await token, yield, return, raise E1, "
-         "re-raise, nested call, seq, try/except over 5 class sets, finally} x every history of 3 "
-         "operations steered by the native generator (no awaitable suspended: anext, asend 7, athrow E1, "
+         "re-raise, nested call, seq, try/except over 5 class sets, finally} x histories of 3 operations "
+         "steered by the native generator (no awaitable suspended: anext, asend 7, athrow E1, "
          "athrow GeneratorExit, aclose; suspended: resume by send 7 / throw E1 / throw CancelledError, "
-         "second consumer anext / aclose); 12 seed bodies x every such history of 4 (5) operations; "
+         "second consumer anext / aclose) -- all of them for <= 2 nodes, quick: all of 2 ops + every 8th "
+         "of 3 ops for 3 nodes, thorough: all for 3 nodes, every 2nd for 4 nodes, all of 4 ops for <= 2 "
+         "nodes; 12 seed bodies x every such history of 3 (4) operations and every 8th of 4 (5); "
          "random bodies (3..12 nodes, ayield from depth 0..3, handlers over 10 classes, raising "
          "StopIteration/StopAsyncIteration/GeneratorExit/CancelledError) x random histories of <= 8 "
          "operations (every 6th with StopIteration/StopAsyncIteration/direct GeneratorExit throws, compared "
